@@ -332,6 +332,9 @@ func (g *generator) funcMap(
 				name = printImportAlias(importPath, filepath.Base(importPath), addImports, aliases)
 			}
 			g.requireVisible(name, importPath)
+			if _generatedInnerNames.MatchString(name) {
+				g.noteHidden(name, generatedNameError(g.fset.Position(g.usePos), name, importPath))
+			}
 			return name
 		},
 	}
@@ -346,6 +349,10 @@ func (g *generator) requireVisible(name, importPath string) {
 	if g.pkg == nil || !g.usePos.IsValid() || name == "" {
 		return
 	}
+	if _generatedNames.MatchString(name) {
+		g.noteHidden(name, generatedNameError(g.fset.Position(g.usePos), name, importPath))
+		return
+	}
 	scope := g.pkg.Scope().Innermost(g.usePos)
 	if scope == nil {
 		return
@@ -357,11 +364,24 @@ func (g *generator) requireVisible(name, importPath string) {
 	if pn, ok := obj.(*types.PkgName); ok && isPackagePathEquivalent(pn.Imported(), importPath) {
 		return
 	}
+	g.noteHidden(name, fmt.Errorf("%v: %v (declared at %v) hides package %q, which the generated code refers to as %v: rename it",
+		g.fset.Position(g.usePos), name, g.fset.Position(obj.Pos()), importPath, name))
+}
+
+// noteHidden records err, to be reported by hiddenPackages, for name.
+func (g *generator) noteHidden(name string, err error) {
 	if g.hidden == nil {
 		g.hidden = make(map[string]error)
 	}
-	g.hidden[name] = fmt.Errorf("%v: %v (declared at %v) hides package %q, which the generated code refers to as %v: rename it",
-		g.fset.Position(g.usePos), name, g.fset.Position(obj.Pos()), importPath, name)
+	g.hidden[name] = err
+}
+
+// generatedNameError is the error for a package that the code generated for
+// the directive at pos refers to as name, when that code declares a variable
+// called name too.
+func generatedNameError(pos token.Position, name, importPath string) error {
+	return fmt.Errorf("%v: the generated code refers to package %q as %v, but declares a variable of that name, which would hide the package: import the package under another name in this file",
+		pos, importPath, name)
 }
 
 // requireNameable notes an error for each type within t that the code
